@@ -141,7 +141,7 @@ def r3(ctx, R):
         R.check(ok, f'{spec[1]}.it_check :: buffers are reset at the end of every IT_CHECK, after all steps decided', h.where, 'C.reset_buffers_nonMPI(self) on every path to exit, after the decision loop', f'{len(rbc)} reset site(s)')
 
 
-@rule('C09', 'C09.R4', 'retry counter: old+1 if restart else 0, re-mapped to the slot the step will occupy', floor=4)
+@rule('C09', 'C09.R4', 'retry counter: old+1 if restart else 0, re-mapped to the slot the step will occupy', floor=5)
 def r4(ctx, R):
     repo = ctx.repo
     fn = repo.func(BR, 'BasicRestartingNonMPI.prepare_next_block')
@@ -156,10 +156,20 @@ def r4(ctx, R):
         m = re.fullmatch(r'MS\[(.+)\]\.status\.restarts_in_a_row', t)
         return str(N2.affine(ast.parse(m.group(1), mode='eval').body)) if m else t
     cnt = [c for c in N2.contribs if c.target.endswith('.status.restarts_in_a_row')]
-    got = sorted((idx(c.target), c.rhs, tuple(c.guards[-1:])) for c in cnt)
-    want = sorted([('-S.status.slot+restart_from', '0', ('S.status.slot < restart_from',)),
-                   ('S.status.slot-restart_from', 'S.status.restarts_in_a_row + 1 if S.status.restart else 0', ('S.status.slot >= restart_from',))])
-    R.check(got == want, 'BasicRestartingNonMPI.prepare_next_block :: counter = old + 1 if restarted else 0, stored at the re-mapped slot', w, want, got)
+    carry = [c for c in cnt if idx(c.target) == 'S.status.slot-restart_from']
+    ok = len(carry) == 1 and carry[0].rhs == 'S.status.restarts_in_a_row + 1 if S.status.restart else 0' and carry[0].guards[-1:] == ['S.status.slot >= restart_from']
+    R.check(ok, 'BasicRestartingNonMPI.prepare_next_block :: counter = old + 1 if restarted else 0, stored at the slot the step moves to', w, 'MS[slot - restart_from].restarts_in_a_row = old + 1 if restart else 0, for slot >= restart_from', [c.describe()[:140] for c in carry])
+    # order hazard: the method is called once per step in slot order and READS S.status.restarts_in_a_row; a store into the
+    # status of a step with a HIGHER slot than the caller's is seen by that step's own (later) call
+    reads_own = 'S.status.restarts_in_a_row' in ast.unparse(fn)
+    for c in cnt:
+        m = re.fullmatch(r'MS\[(.+)\]\.status\.restarts_in_a_row', c.target)
+        if not m:
+            continue
+        a = N2.affine(ast.parse(m.group(1), mode='eval').body)
+        d = a - N2.affine(ast.parse('S.status.slot', mode='eval').body)
+        may_exceed = a is None or any(v > 0 for k, v in d.coeffs.items()) or d.const > 0
+        R.check(not (reads_own and may_exceed), f'BasicRestartingNonMPI.prepare_next_block :: store into MS[{a}] is not read by a later per-step call', w, 'index <= own slot (the destination slot - restart_from), or a snapshot of the counters taken before the loop', f'MS[{a}] with slot-relative offset {d}: can be a later step whose own call then reads the overwritten counter')
     fn = repo.func(BR, 'BasicRestartingMPI.prepare_next_block')
     w = f'{BR}:BasicRestartingMPI.prepare_next_block'
     R.fn(w)
